@@ -54,8 +54,10 @@ ASSUMPTIONS = [
   "init-time timers are registered from a third (main) thread while the scheduler already runs",
   "lateness is judged only as 'virtual time passed although something requested was due / ready / runnable' (i.e. it needed the "
   "CYCLE_MAXIMUM poll or another thread's timeout to be noticed) or 'never resumed'; who runs first at one instant is never judged",
-  "a blocking operation whose execute() raises is generated in top-level tasks only (in a sub-task it de-schedules the AgainTask and the "
-  "caller stays blocked -- observed on the unchanged tree, not judged)",
+  "a blocking operation whose execute() raises: in a top-level task the task is de-scheduled (must never be resumed); in a task_function "
+  "sub-task the failure must come back to the sub-task as an exception at its yield (and travel on to the caller if not caught there), "
+  "by analogy with every other failure of a sub-task -- on the tree before the fix the AgainTask is de-scheduled and the caller stays blocked "
+  "for ever (finding C06-subtask-failing-op-strands-caller)",
   "two tasks that Recv on one socket: the loser of the race may get None (EAGAIN) without a timeout",
   "the raise-vs-end twin comparison is skipped for deviating thread schedules (decision indices of the two runs need not line up)",
   "the virtual select returns exactly the descriptors among those passed that are ready; select.epoll is replaced by a fake below the real EpollSelect",
@@ -302,6 +304,17 @@ def _enum_failing_ops(tier):
         for other in ([{"op": "y0"}, {"op": "y0"}], [{"op": "yn", "n": 0.25}, acq, rel], [tryacq, {"op": "sleep", "n": 0.25}]):
           yield {"mode": mode, "horizon": 4, "locks": 2,
                  "tasks": [{"prog": p + [bad, {"op": "y0"}, {"op": "yn", "n": 0.25}]}, {"prog": other}]}
+      # the same operation inside a task_function sub-task: the failure has to reach the sub-task / its caller
+      for sp in ([], [{"op": "sleep", "n": 0.125}], [{"op": "select", "t": 0}]):
+        for catch in (True, False):
+          for ccatch in (True, False):
+            for nested in (False, True):
+              sub = {"kind": "gen", "prog": sp + [dict(bad, catch=catch), {"op": "sleep", "n": 0.125}], "ret": {"v": "token"}}
+              if nested:
+                sub = {"kind": "gen", "prog": [{"op": "call", "sub": sub, "catch": catch}], "ret": {"v": "token"}}
+              yield {"mode": mode, "horizon": 4, "locks": 2,
+                     "tasks": [{"prog": [{"op": "call", "sub": sub, "catch": ccatch}, {"op": "y0"}]},
+                               {"prog": [{"op": "yn", "n": 0.25}, {"op": "y0"}]}]}
 
 
 def _enum_raises(tier):
@@ -485,8 +498,11 @@ def _strategy(tier, mode="inline"):
                    st.sampled_from([[], [], ["abort"], ["chain"], ["abort", "abort"], ["chain", "abort"], ["abort", "chain"], ["chain", "chain"]]),
                    rf_final, st.sampled_from([0, 0, 0.125, 0.25]), st.sampled_from([True, True, True, False]))
 
+  badop = st.fixed_dictionaries({"op": st.just("badop"), "how": st.sampled_from(["raise", "release-unheld"]), "lock": st.integers(0, 1),
+                                 "catch": st.sampled_from([True, True, False])})
+
   def subs(depth):
-    inner = [sleep_rel, sel_t, busy, recv, send, sel_fd, rfop]
+    inner = [sleep_rel, sel_t, busy, recv, send, sel_fd, rfop, badop]
     if depth > 0:
       inner.append(call(depth - 1))
     return st.fixed_dictionaries({"kind": st.sampled_from(["gen", "gen", "gen", "plain"]),
@@ -502,8 +518,7 @@ def _strategy(tier, mode="inline"):
     st.fixed_dictionaries({"op": st.just("block"), "how": st.sampled_from(["false", "sleepnone"])}),
     st.fixed_dictionaries({"op": st.just("wake"), "task": idx}),
     st.fixed_dictionaries({"op": st.just("wake"), "task": idx}),
-    call(1), call(1), rfop,
-    st.fixed_dictionaries({"op": st.just("badop"), "how": st.sampled_from(["raise", "release-unheld"]), "lock": st.integers(0, 1)}),
+    call(1), call(1), rfop, badop,
     st.fixed_dictionaries({"op": st.just("acquire"), "lock": st.integers(0, 1), "blocking": st.booleans()}),
     st.fixed_dictionaries({"op": st.just("release"), "lock": st.integers(0, 1)}),
     busy,
